@@ -77,6 +77,8 @@ Range(s) == {s[k] : k \in DOMAIN s}
 TI == <<"int">>  TN == <<"nat">>  TStr == <<"string">>  TB == <<"bytes">>  TBool == <<"bool">>  TUnit == <<"unit">>
 TMutez == <<"mutez">>  TTs == <<"timestamp">>  TAddr == <<"address">>  TKh == <<"key_hash">>  TKey == <<"key">>
 TSig == <<"signature">>  TChain == <<"chain_id">>  TLam == <<"lambda", TUnit, TUnit>>
+\* a lambda is packable whatever its parameter / return types mention (here: operation, which is itself not packable)
+TLamOp == <<"lambda", <<"operation">>, <<"operation">>>>
 NumTypes == {"int", "nat", "mutez", "timestamp"}
 B58Types == {"address", "key_hash", "key", "signature", "chain_id"}
 IsLeaf(t) == t[1] \notin {"pair", "option", "or", "list", "set", "map"}
@@ -315,7 +317,7 @@ LamPool == << <<"lam", <<>>>>, <<"lam", << <<"DROP", 1>>, <<"UNIT">> >>>> >>
 LeafPool(t) == CASE t[1] = "int" -> IntPool [] t[1] = "nat" -> NatPool [] t[1] = "mutez" -> MutezPool [] t[1] = "timestamp" -> TsPool
                  [] t[1] = "string" -> StrPool [] t[1] = "bytes" -> BytesPool [] t[1] = "bool" -> BoolPool [] t[1] = "unit" -> << <<"unit">> >>
                  [] t[1] = "address" -> AddrPool [] t[1] = "key_hash" -> KhPool [] t[1] = "key" -> KeyPool [] t[1] = "signature" -> SigPool
-                 [] t[1] = "chain_id" -> ChainPool [] t[1] = "lambda" -> LamPool
+                 [] t[1] = "chain_id" -> ChainPool [] t[1] = "lambda" -> (IF t = TLam THEN LamPool ELSE << <<"lam", <<>>>> >>)
 \* pool of a leaf at nesting depth d of the value: everything at the top, a prefix below
 Width(t, d) == IF d = 0 THEN 1000 ELSE IF d = 1 THEN (IF t[1] = "timestamp" THEN 4 ELSE IF Wide THEN 4 ELSE 3) ELSE 2
 PoolAt(t, d) == LET p == LeafPool(t) IN SubSeq(p, 1, IF Width(t, d) < Len(p) THEN Width(t, d) ELSE Len(p))
@@ -346,9 +348,9 @@ Vals(t, d) ==
 \* ----- types -----
 RECURSIVE Comb(_)
 Comb(ts) == IF Len(ts) = 2 THEN <<"pair", ts[1], ts[2]>> ELSE <<"pair", ts[1], Comb(Tail(ts))>>
-Leaves == << TI, TN, TStr, TB, TBool, TUnit, TMutez, TTs, TAddr, TKh, TKey, TSig, TChain, TLam >>
+Leaves == << TI, TN, TStr, TB, TBool, TUnit, TMutez, TTs, TAddr, TKh, TKey, TSig, TChain, TLam, TLamOp >>
 NLeaf == Len(Leaves)
-NCmp == NLeaf - 1                                     \* every leaf but the lambda is comparable
+NCmp == NLeaf - 2                                     \* every leaf but the two lambdas is comparable
 Nx(i, k) == Leaves[((i + k - 1) % NLeaf) + 1]
 D1 == Range(Leaves)
 Combs2 == { Comb(<<TI, TStr, TB>>), Comb(<<TN, TBool, TAddr, TUnit>>), Comb(<<TI, TN, TStr, TB, TBool>>),
